@@ -236,6 +236,58 @@ def gen_staleack(rng: random.Random, tier: str) -> dict:
     }
 
 
+def gen_fig8(rng: random.Random, tier: str) -> dict:
+    """Scripted adversary, randomised: an entry of an old term reaches a majority only under a later
+    leader that has no entry of its own term, while a third node holds an unreplicated entry of a term in
+    between (figure 8 of the Raft paper).  Legal for a correct implementation (the old entry is simply not
+    committed and may be overwritten); refutes one that commits entries of earlier terms by counting replicas.
+
+    Roles S1..S5 (random permutation).  S1 leads first, is cut from S3,S4,S5 and replicates `a` to S2 only;
+    S5 is forced to win the next term among {S3,S4,S5}, is isolated and takes `b` that nobody receives;
+    S1 is forced to win again (no new command), spreads `a`; S1 stops, S5 is forced to win.
+    """
+    perm = [f"n{i}" for i in range(5)]
+    rng.shuffle(perm)
+    S1, S2, S3, S4, S5 = perm
+    s = rng.choice([0.3, 0.5, 1.0])
+
+    def t(x):
+        return _r((x + rng.uniform(-0.02, 0.02)) * s)
+
+    d0 = _r(rng.uniform(0.0005, 0.004) * s)
+    faults = [{"kind": "crash", "node": v, "at": t(0.9), "restart_at": t(1.25)} for v in (S2, S3, S4, S5)]
+    faults += [
+        # three windows with pairwise disjoint node pairs (healing one must not lift another: that is C06's subject)
+        {"kind": "partition", "a": [S1], "b": [S3, S4], "start": t(3.0), "end": t(5.9), "asym": False},
+        {"kind": "partition", "a": [S1], "b": [S5], "start": t(3.0), "end": t(8.2), "asym": False},
+        {"kind": "crash", "node": S2, "at": t(3.6), "restart_at": t(6.0)},
+        {"kind": "crash", "node": S3, "at": t(3.75), "restart_at": t(4.3)},
+        {"kind": "crash", "node": S4, "at": t(3.75), "restart_at": t(4.3)},
+        {"kind": "partition", "a": [S5], "b": [S2, S3, S4], "start": t(5.5), "end": t(8.2), "asym": False},
+        {"kind": "crash", "node": S3, "at": t(6.4), "restart_at": t(6.9)},
+        {"kind": "crash", "node": S4, "at": t(6.4), "restart_at": t(6.9)},
+        {"kind": "crash", "node": S1, "at": t(8.0), "restart_at": None},
+        {"kind": "crash", "node": S2, "at": t(8.9), "restart_at": t(9.65)},
+        {"kind": "crash", "node": S3, "at": t(8.9), "restart_at": t(9.65)},
+        {"kind": "crash", "node": S4, "at": t(8.9), "restart_at": t(9.65)},
+    ]
+    ticks = [{"t": t(3.1 + 0.03 * j), "mode": "node", "node": S1, "pick": 0} for j in range(rng.choice([1, 1, 2, 3]))]
+    ticks += [{"t": t(5.6 + 0.03 * j), "mode": "node", "node": S5, "pick": 0} for j in range(rng.choice([1, 1, 2]))]
+    ticks.append({"t": t(12.0), "mode": "all", "pick": 0})
+    ticks.sort(key=lambda k: k["t"])
+    return {
+        "n": 5,
+        "et": [_r(1.0 * s), _r(1.2 * s)],
+        "hb": _r(0.2 * s),
+        "seed": rng.randrange(1 << 30),
+        "duration": _r(13.0 * s),
+        "script": {"seed": rng.randrange(1 << 30), "family": "fixed", "base": [d0, d0], "loss": 0.0, "rules": []},
+        "faults": faults,
+        "ticks": ticks,
+        "roles": {"S1": S1, "S2": S2, "S3": S3, "S4": S4, "S5": S5},
+    }
+
+
 def gen_calm(rng: random.Random, tier: str) -> dict:
     n = rng.choice([3, 4, 5])
     names = [f"n{i}" for i in range(n)]
@@ -277,6 +329,9 @@ def run_chaos(case: dict) -> Result:
             mode = tk["mode"]
             if mode == "any":
                 targets = [tk["pick"] % mon.n]
+            elif mode == "node":  # one named node, only if it claims leadership
+                i = mon.idx[tk["node"]]
+                targets = [i] if nodes[i].is_leader else []
             else:
                 targets = [i for i in range(mon.n) if nodes[i].is_leader]
                 if mode == "one" and targets:
@@ -417,8 +472,9 @@ FAMILIES = {
     "duel": Family("duel", gen_duel, run_chaos, case_timeout=90.0),
     "calm": Family("calm", gen_calm, run_calm, case_timeout=60.0),
     "staleack": Family("staleack", gen_staleack, run_chaos, case_timeout=90.0),
+    "fig8": Family("fig8", gen_fig8, run_chaos, case_timeout=90.0),
 }
 BUDGET = {
-    "quick": {"chaos": 2400, "duel": 1200, "calm": 400, "staleack": 200},
-    "thorough": {"chaos": 150000, "duel": 80000, "calm": 20000, "staleack": 6000},
+    "quick": {"chaos": 2400, "duel": 1200, "calm": 400, "staleack": 200, "fig8": 200},
+    "thorough": {"chaos": 150000, "duel": 80000, "calm": 20000, "staleack": 6000, "fig8": 6000},
 }
